@@ -544,6 +544,8 @@ class MQTTProtocol(MQTTBaseProtocol):
         window = self.factory.windowPublish[self.addr]
         while queue:
             request = queue[0]
+            if request.protocol is not self and self.state is self.CONNECTING:
+                break           # left behind by an earlier connection: wait for CONNACK
             if request.msgId:   # only QoS 1 & 2 occupy the window
                 if len(window) >= self._window:
                     break
